@@ -237,6 +237,11 @@ class Run:
         self.checker_cmd = (self.checker_cmd + " ; " if self.checker_cmd else "") + \
             "make -C coq %s  (coqc 8.16.1, full .vo build) + coqc coq/%s for Print Assumptions" % (" ".join(targets), props)
         ok, out = make_targets(targets, timeout=timeout)
+        for attempt in range(2):
+            if ok or re.search(r'File "[^"]+", line \d+', out):
+                break
+            time.sleep(10)      # make died without a Coq error location (killed / resources): try again
+            ok, out = make_targets(targets, timeout=timeout)
         if not ok:
             m = re.findall(r'File "\./([^"]+)", line (\d+)', out)
             where = ["%s:%s" % x for x in m] or ["build"]
@@ -324,6 +329,14 @@ class Run:
                 running.append((s, fn, p))
             s, fn, p = running.pop(0)
             out, _ = p.communicate()
+            tries = 0
+            while p.returncode != 0 and "Error" not in out and tries < 3:
+                # killed / out of memory / timed out without a Coq error: not a verdict, run it again alone
+                tries += 1
+                time.sleep(5 * tries)
+                p = subprocess.Popen(["timeout", str(timeout * 2), "coqc", "-Q", COQ, "DV", "-w", "none", fn],
+                                     cwd=self.rundir, stdout=subprocess.PIPE, stderr=subprocess.STDOUT, text=True)
+                out, _ = p.communicate()
             if p.returncode != 0:
                 errors.append({"file": fn, "log": out[-2000:]})
                 continue
